@@ -1036,3 +1036,72 @@ def r9(cx):
 
 RS.explanation += (' No count (Iterator::position/rposition, enumerate().0, count(), len()) ever flows into current_job_index / previous_job_index '
                    'or into the key of a job slab accessor, followed through helpers, closures and Option/iterator adapters (R9).')
+
+
+# ---------------------------------------------------------------------------------------
+# added after the audit C12h4
+@RS.rule('C12.R8b', 'K-GUARD', 'a subshell never rewrites a job it inherited: after disown_all the entries of the parent stay in the table for '
+         'listing only - the subshell is not their parent, so a wait() answer for the same process ID belongs to a child of the subshell that '
+         'the kernel gave the ID to: JobList::update_status changes Job::state only behind a test that the job is owned (sibling of R8)')
+def r8b(cx):
+    F = cx.F
+    fn = JOBLIST + '::update_status'
+    body = F.inlined(F.body(fn))
+    cx.fn(body.fn)
+    du = Q.DefUse(body)
+    writes = Q.field_writes(body, JOB, 'state')
+    cx.require(writes, 'JobList::update_status no longer writes Job::state (anchor moved)')
+    cx.require(any(f['name'] == 'is_owned' for v in F.adts[JOB]['variants'] for f in v['fields']), 'Job has no field is_owned any more')
+
+    def owned_test(org, lab):
+        org, lab = Q.peel_not(du, org, lab)
+        if org['k'] == 'place' and any(isinstance(e, dict) and e.get('f') == 'is_owned' and e.get('adt') == JOB for e in org['pl'].get('p') or []):
+            return lab == ('bool', True)
+        return False
+    for w in writes:
+        blk = w[0]
+        ok = any(owned_test(org, lab) for org, lab, e in Q.implied_conditions(F, body, du, blk))
+        cx.site('update_status: Job::state written at %s behind an is_owned test: %s' % (body.loc(w[2]), ok))
+        if not ok:
+            cx.violation(fn, 'disowned-job-state-overwritten', 'update_status overwrites the state of a job the (sub)shell does not own: in a subshell '
+                         'the inherited entries stay Running for ever, so when such a process has died and a child of the subshell gets the same '
+                         'process ID, the wait() answer for that child changes the inherited entry (state, state_changed, even current job)',
+                         loc=body.loc(w[2]))
+
+
+@RS.rule('C12.R10', 'K-PASS+K-SIBLING', 'a job that has just been suspended becomes the current job (docs/src/interactive/job_control.md; update_status does so '
+         'for a listed job that stops): where the foreground-wait code records a stopped process as a new job, every path from JobList::insert '
+         'to a return passes set_current_job on the index insert returned - insert alone leaves `%+` on an older job when two jobs are '
+         'already suspended, and a bare `fg` resumes the wrong command')
+def r10(cx):
+    F = cx.F
+    n = 0
+    for b0, blk0, t0 in F.callers_of(lambda names, t: JOBLIST + '::insert' in names):
+        if b0.crate != 'yash_env' or not b0.root.startswith('yash_env::job::') or b0.root.startswith(JOBLIST):
+            continue
+        body = F.inlined(F.main_body(b0.root))
+        du = Q.DefUse(body)
+        for blk, t in Q.find_calls(body, [JOBLIST + '::insert']):
+            # only insertions of a job known to be stopped (the recorder of a suspended foreground command)
+            conds = Q.implied_conditions(F, body, du, blk)
+            stopped = any((org['k'] == 'call' and Q.callee_is(org['t'], [re.compile(r'job::(ProcessResult|ProcessState)::is_stopped$')]) and lab == ('bool', True))
+                          or (org['k'] == 'discr' and 'ProcessResult' in (org.get('ty') or '') and lab == ('variant', 'Stopped'))
+                          for org, lab, e in conds)
+            if not stopped:
+                continue
+            n += 1
+            cx.fn(body.fn)
+            idx = Q.forward_taint(body, {t['dest']['l']})
+            setters = {sb for sb, st in Q.find_calls(body, [JOBLIST + '::set_current_job'])
+                       if any((Q.operand_place(a) or {}).get('l') in idx for a in st['a'][1:])}
+            p = Q.must_pass(body, [t['to']], setters) if t.get('to') is not None else None
+            cx.site('%s: stopped job inserted at %s; made the current job on every path: %s' % (body.root, body.loc(t), p is None and bool(setters)))
+            if not setters or p is not None:
+                cx.violation(body.root, 'suspended-job-not-made-current', '%s records a just-suspended foreground command with JobList::insert only: '
+                             'with two jobs already suspended the new job gets neither `%%+` nor `%%-`, so `fg` / `bg` without operand and `%%%%` '
+                             'act on an older job (the manual: "When a job is suspended, it becomes the current job")' % body.root,
+                             loc=body.loc(t), path=Q.render_path(body, p) if p else None)
+    cx.floor(n, 1, 'recorders of a suspended foreground command')
+
+
+RS.explanation += ' update_status changes the state of owned jobs only (R8b); a just-suspended foreground job is made the current job (R10).'
